@@ -46,9 +46,9 @@ CheckedOps == {"+", "-", "*", "%"}
 BitOps == {"&", "|", "xor"}
 BigOps == {"//", "%%", "/!", "gcd", "lcm"}
 ExpOps == {"^", "<<", ">>"}
-CmpOps == {"==", "!=", "<", "<=", ">", ">=", "<=>", ">=<"}
+WordCmpOps == {"==", "!=", "<", "<=", ">", ">=", "<=>", ">=<"}
 PickOps == {"min", "max"}
-BinOps == CheckedOps \cup BitOps \cup BigOps \cup ExpOps \cup CmpOps \cup PickOps
+BinOps == CheckedOps \cup BitOps \cup BigOps \cup ExpOps \cup WordCmpOps \cup PickOps
 UnOps == {"neg", "~", "abs", "signum", "even", "odd"}
 
 IsExp(x) == x.rep = "S" /\ \E n \in ExpVals : IntEq(x.v, IntFromInt(n))
@@ -70,7 +70,7 @@ MachBin(op, x, y) ==
                    IN [v |-> FromU64(w), rep |-> "S"]
               ELSE [v |-> exact, rep |-> "B"]
          [] op \in BigOps \cup ExpOps -> [v |-> exact, rep |-> "B"]
-         [] op \in CmpOps -> [v |-> exact, rep |-> "S"]
+         [] op \in WordCmpOps -> [v |-> exact, rep |-> "S"]
          [] op = "min" -> IF IntCmp(y.v, x.v) < 0 THEN y ELSE x
          [] op = "max" -> IF IntCmp(y.v, x.v) > 0 THEN y ELSE x
 MachUn(op, x) ==
